@@ -13,6 +13,12 @@ def c01(ctx):
              "argument (several with a guard fact re-checked on every run)")
     n = cr.census_for(ctx, "C01.R1", "C01", "parsing", cr.roots_front)
     rep.floor("C01.R1", n, 90, "census sites (both profiles)")
+    rep.rule("C01.R2", "UNITS: every (start, end) / (start, len) / idx handed to substr, make_token_from, make_range, make_loc, advance_to and "
+             "every byte range is dimensionally consistent (offset vs length), and no length taken from a converted copy of the text "
+             "(to_lowercase, format ..) is used as a length of the source: with the reviewed per-caller arguments of C01.R1 this is what "
+             "keeps the (unchecked in release) slicing in bounds and on character boundaries")
+    from .c12 import units_rule
+    units_rule(ctx, "C01.R2")
     progress_rules(ctx)
 
 
